@@ -28,12 +28,19 @@ func (r *Reshape) Init(*onnx.NodeProto) error {
 func (r *Reshape) Apply(inputs []tensor.Tensor) ([]tensor.Tensor, error) {
 	t := inputs[0]
 
-	newShape, err := ops.AnyToIntSlice(ops.IfScalarToSlice(inputs[1].Data().([]int64)))
-	if err != nil {
-		return nil, err
+	// An empty shape tensor reshapes to a scalar; its (empty) data cannot be accessed.
+	newShape := []int{}
+
+	if inputs[1].Shape().TotalSize() > 0 {
+		var err error
+
+		newShape, err = ops.AnyToIntSlice(ops.IfScalarToSlice(inputs[1].Data()))
+		if err != nil {
+			return nil, err
+		}
 	}
 
-	err = processShape(newShape, t.Shape())
+	err := processShape(newShape, t.Shape())
 	if err != nil {
 		return nil, err
 	}
@@ -76,6 +83,10 @@ func (r *Reshape) String() string {
 
 func processShape(newShape, currentShape []int) error {
 	for i := 0; i < len(newShape); i++ {
+		if newShape[i] < -1 {
+			return ops.ErrDimension("dim size can not be negative, except for a single -1")
+		}
+
 		if newShape[i] == 0 {
 			if i >= len(currentShape) {
 				return ops.ErrDimension("could not infer dim size")
